@@ -3,7 +3,6 @@
 # owning checks (quick tier) and record whether they raise the alarm again; then restore the tree.
 cd /verif
 OUT=/verif/work/revert_results.txt
-: > $OUT
 run() { # name "commits" "checks"
   name=$1; commits=$2; checks=$3
   ok=1
@@ -20,10 +19,10 @@ run() { # name "commits" "checks"
   git -C /repo checkout -- .
   rm -rf /verif/replays/*/found_*
 }
-run D1 5dd45d6 "C04 C05 C09 C02"
-run D2 8d63ebf "C06 C09"
-run D3 8e02660 "C07 C08 C09"
-run D4 0d290e3 "C08 C09"
+#run D1 5dd45d6 "C04 C05 C09 C02"
+#run D2 8d63ebf "C06 C09"
+#run D3 8e02660 "C07 C08 C09"
+#run D4 0d290e3 "C08 C09"
 run D5 7caac82 "C13 C02"
 run D6 74514cc "C14"
 run D6b 00b90f2 "C14"
